@@ -504,7 +504,11 @@ class Interp:
             return
         it = self.eval(node.iter, frame)
         broke = False
+        n_iter = 0
         for v in self.iterate(it):
+            n_iter += 1
+            if n_iter > self.hooks.get("max_unroll_for", 64):
+                raise Unsupported(f"for loop at line {node.lineno} needs an invariant (unrolled {n_iter - 1} times)")
             self.assign(node.target, v, frame)
             try:
                 yield from self.exec_block(node.body, frame)
